@@ -1,9 +1,11 @@
 import PybropsModel.J
 import PybropsModel.Model.Selection
+import PybropsModel.Model.SelectionSpec
+import PybropsModel.Model.Coancestry
 open Lean
 
 namespace Drv.C05
-open Selection
+open Selection Selection.Spec
 
 /-- square root used when the model is *executed* at `Rat`: exact on perfect squares, otherwise rounded
     down to 30 decimal digits (the harness compares with tolerance 1e-9) -/
@@ -35,6 +37,7 @@ def crit (j : Json) : J.R (Crit Rat) := do
   | "family" => pure (.family (← J.field j "D" (J.mat J.rat)) (← J.field j "fix" (J.list J.nat))
       (← J.field j "nfam" J.nat))
   | "opv" => pure (.opv (← J.field j "H" mat4))
+  | "gb" => pure (.gb (← J.field j "H" mat4) (← J.field j "nbest" J.nat))
   | "pafd" | "pau" | "mogs" =>
     let g ← J.field j "geno" (J.mat J.rat)
     let p ← J.field j "ploidy" J.nat
@@ -63,81 +66,7 @@ def opLatent : J.Op := fun j => do
   | some l => pure (J.ofList J.ofRat l)
   | none => J.fail "unsupported encoding"
 
-/-! ### Spec oracle: the criterion's definition recomputed from the underlying data, independent of the
-    decision encoding.  Input: the parental contribution shares `c` (Σ c = 1), the chosen set, and a latent
-    vector reported by the implementation. -/
-
-/-- a definitional latent entry: `a + b·√q` -/
-structure Entry where
-  a : Rat
-  b : Rat
-  q : Rat
-
-def Entry.val (v : Rat) : Entry := ⟨v, 0, 0⟩
-
-def absQ (a : Rat) : Rat := if a < 0 then -a else a
-def maxQ (a b : Rat) : Rat := if a < b then b else a
-
-def closeQ (rel abs_ : Rat) (a b : Rat) : Bool :=
-  let d := absQ (a - b)
-  d ≤ abs_ || d ≤ rel * maxQ (absQ a) (absQ b)
-
-/-- does the reported value `l` equal `a + b·√q` (within tolerance)? -/
-def Entry.holds (rel abs_ : Rat) (e : Entry) (l : Rat) : Bool :=
-  if e.b == 0 then closeQ rel abs_ l e.a
-  else
-    let r := (l - e.a) / e.b            -- should be √q
-    (0 - abs_ ≤ r) && closeQ (2 * rel) abs_ (r * r) e.q
-
-def column (M : List (List Rat)) (j : Nat) : List Rat := M.map fun r => r.getD j 0
-
-/-- cᵀ (CᵀC) c with K = CᵀC formed explicitly -/
-def quadForm (C : List (List Rat)) (c : List Rat) : Rat :=
-  let Ct := Np.transpose C
-  let K := Ct.map fun ci => Ct.map fun cj => Np.dot ci cj
-  Np.dot c (K.map fun row => Np.dot row c)
-
-def linDef (D : List (List Rat)) (c : List Rat) : List Entry :=
-  (List.range (ncols D)).map fun j => Entry.val (-(Np.dot c (column D j)))
-
-def listMax (l : List Rat) : Rat := l.foldl maxQ (l.headD 0)
-
-def freqDef (geno : List (List Rat)) (ploidy : Nat) (c : List Rat) (m : Nat) : Rat :=
-  Np.dot c (column geno m) / (ploidy : Rat)
-
-def pafdDef (geno : List (List Rat)) (ploidy : Nat) (w tf : List (List Rat)) (c : List Rat) : List Entry :=
-  (List.range (ncols w)).map fun j => Entry.val <|
-    Np.sum ((List.range w.length).map fun m => (w.getD m []).getD j 0 * absQ ((tf.getD m []).getD j 0 - freqDef geno ploidy c m))
-
-/-- allele unavailability by its definition: the target frequency cannot be attained from the selected
-    parents: target 0 needs p < 1, target 1 needs p > 0, an intermediate target needs 0 < p < 1 -/
-def pauDef (geno : List (List Rat)) (ploidy : Nat) (w tf : List (List Rat)) (c : List Rat) : List Entry :=
-  (List.range (ncols w)).map fun j => Entry.val <|
-    Np.sum ((List.range w.length).map fun m =>
-      let p := freqDef geno ploidy c m
-      let t := (tf.getD m []).getD j 0
-      let attainable := if t ≤ 0 then p < 1 else if 1 ≤ t then 0 < p else (0 < p && p < 1)
-      if attainable then 0 else (w.getD m []).getD j 0)
-
-def definition (cr : Crit Rat) (c : List Rat) (supp : List Nat) : List Entry :=
-  match cr with
-  | .lin _ D => linDef D c
-  | .ocs C D => ⟨0, 1, quadForm C c⟩ :: linDef D c
-  | .mgr C => [⟨0, 1, quadForm C c⟩]
-  | .meh C => [⟨-1, 1, quadForm C c⟩]
-  | .l1 V => V.map fun Vt => Entry.val (Np.sum (Vt.map fun row => absQ (Np.dot row c)))
-  | .l2 C => C.map fun Ct => ⟨0, 1, quadForm Ct c⟩
-  | .family D fix nfam => linDef D c ++ (List.range nfam).map fun f =>
-      Entry.val (-(Np.sum ((List.zip fix c).filterMap fun p => if p.1 == f then some p.2 else none)))
-  | .opv H =>
-      let nblk := ((H.headD []).headD []).length
-      let ntrait := (((H.headD []).headD []).headD []).length
-      (List.range ntrait).map fun j => Entry.val <|
-        -((H.length : Rat) * Np.sum ((List.range nblk).map fun b =>
-            listMax (H.flatMap fun Hp => supp.map fun i => ((Hp.getD i []).getD b []).getD j 0)))
-  | .pafd g p w tf => pafdDef g p w tf c
-  | .pau g p w tf => pauDef g p w tf c
-  | .mogs g p w tf => pauDef g p w tf c ++ pafdDef g p w tf c
+/-! ### Spec oracle: `Selection.Spec.definition` (Model/SelectionSpec.lean) executed at `Rat` -/
 
 /-- request: criterion data, `shares` (Σ = 1), `supp` (indices with positive share),
     `reported`: list of latent vectors returned by the implementation for encodings of these shares -/
@@ -150,11 +79,10 @@ def opSpecLatent : J.Op := fun j => do
   let abs_ ← J.fieldD j "abs" J.rat (mkRat 1 (10 ^ 12))
   if c.length != cr.ncand then J.fail "shape"
   let d := definition cr c supp
-  let bad := reported.zipIdx.filter fun (l, _) =>
-    !(l.length == d.length && (List.zip d l).all fun (e, v) => e.holds rel abs_ v)
+  let bad := reported.zipIdx.filter fun (l, _) => !(accepts rel abs_ d l)
   pure <| J.obj [("ok", J.ofBool bad.isEmpty),
     ("bad", J.ofList J.ofNat (bad.map Prod.snd)),
-    ("definition", J.ofList (fun e : Entry => J.ofList J.ofRat [e.a, e.b, e.q]) d)]
+    ("definition", J.ofList (fun e : Entry Rat => J.ofList J.ofRat [e.a, e.b, e.q]) d)]
 
 /-! ### evalfn -/
 
@@ -229,13 +157,43 @@ def opSpecFactor : J.Op := fun j => do
   let Ct := Np.transpose C
   let G := Ct.map fun ci => Ct.map fun cj => Np.dot ci cj
   let ok := G.length == K.length && (List.zip G K).all fun (g, k) =>
-    g.length == k.length && (List.zip g k).all fun (a, b) => closeQ rel abs_ a b
+    g.length == k.length && (List.zip g k).all fun (a, b) => close rel abs_ a b
   pure <| J.obj [("ok", J.ofBool ok)]
+
+/-- the kinship matrix of a population computed by the **C13 model** (Model/Coancestry.lean) from the
+    genotype counts: the independent `K` of the contract `CᵀC = K` in the factory cases.
+    `method`: "mol" | "vr" (reference frequencies = the population's own) | "gw" (weights `w`, frequencies `p`) -/
+def opKinship : J.Op := fun j => do
+  let method ← J.field j "method" J.str
+  let X ← J.field j "X" (J.mat J.rat)
+  let ploidy ← J.field j "ploidy" J.nat
+  let m := ncols X
+  let G : Except Coancestry.Err (List (List Rat)) ← match method with
+    | "mol" => pure (Coancestry.molecular ploidy m X)
+    | "vr" => pure (Coancestry.vanraden ploidy (Coancestry.afreq ploidy X.length m X) X)
+    | "gw" => do
+        let w ← J.field j "w" (J.list J.rat)
+        let p ← J.field j "p" (J.list J.rat)
+        pure (.ok (Coancestry.gw ploidy w p X))
+    | s => J.fail s!"unknown method {s}"
+  match G with
+  | .error e => pure (J.obj [("err", J.ofStr e.tag)])
+  | .ok G => pure (J.obj [("K", J.ofMat J.ofRat (Coancestry.asFormat true G))])
+
+/-- one selection step of the look-ahead simulation: scores and the selected index set -/
+def opLaStep : J.Op := fun j => do
+  let sc := laScores (← J.field j "Z" (J.mat J.rat)) (← J.field j "u" (J.mat J.rat)) (← J.field j "pw" (J.mat J.rat))
+  pure <| J.obj [("scores", J.ofList J.ofRat sc), ("sel", J.ofList J.ofNat (laSelect sc (← J.field j "nparent" J.nat)))]
+
+def opLaLatent : J.Op := fun j => do
+  pure <| J.ofList J.ofRat (laLatent (← J.field j "ploidy" J.nat) (← J.field j "u" (J.mat J.rat))
+    (← J.field j "finals" mat3))
 
 def ops : List (String × J.Op) :=
   [("c05.latent", opLatent), ("c05.spec_latent", opSpecLatent), ("c05.evalfn", opEvalfn),
    ("c05.bvdata", opBvData), ("c05.wgebv", opWgebv), ("c05.guard", opGuard), ("c05.calcV", opCalcV), ("c05.xmap", opXmap),
    ("c05.uc", opUc), ("c05.haplomat", opHaplomat), ("c05.ohvmat", opOhvmat), ("c05.embv", opEmbv),
-   ("c05.spec_factor", opSpecFactor)]
+   ("c05.spec_factor", opSpecFactor), ("c05.kinship", opKinship), ("c05.la_step", opLaStep),
+   ("c05.la_latent", opLaLatent)]
 
 end Drv.C05
